@@ -68,6 +68,8 @@ def mc(ck):
                   required_actions=["TryInit", "HeaderSub", "FetchNext", "BatchOk", "BatchForeign", "BatchFail"],
                   timeout=3000)
         ck.tlc_mc("MC_Syncer", ck.cfg_with("MC_Syncer_live.cfg"), tag="mc_live", timeout=3000)
+        # liveness of the whole composition (syncer + daser + pruner): window synced and sampled, old blocks pruned
+        ck.tlc_mc("MC_Node", ck.cfg_with("MC_Node_live.cfg"), tag="mc_node_live", timeout=3000, workers=4)
 
 
 def run(ck):
